@@ -119,6 +119,31 @@ def game_from(mem, origin):
     return g, bytes(mem)
 
 
+SECTION_NAMES = ('gfx', 'map', 'gff', 'music', 'sfx')
+
+
+def section_from(name, data, g):
+    """A new section object holding `data`, made the way the loaders and build make them."""
+    from pico8.gfx.gfx import Gfx
+    from pico8.gff.gff import Gff
+    from pico8.map.map import Map
+    from pico8.sfx.sfx import Sfx
+    from pico8.music.music import Music
+    if name == 'map':
+        return Map.from_bytes(data, version=8, gfx=g.gfx)
+    return {'gfx': Gfx, 'gff': Gff, 'sfx': Sfx, 'music': Music}[name].from_bytes(data, version=8)
+
+
+def clone_of(g):
+    """A second cart made from the first with the natural idiom Section.from_bytes(other.to_bytes())."""
+    from pico8.game import game as game_mod
+    c = game_mod.Game.make_empty_game()
+    c.gfx = section_from('gfx', g.gfx.to_bytes(), c)
+    for name in SECTION_NAMES[1:]:
+        setattr(c, name, section_from(name, getattr(g, name).to_bytes(), c))
+    return c
+
+
 def one_case(ctx, prior_seed, addr, data, wrap=bytes, origin='inplace'):
     mem, _modes = cartgen.memory_from_seed(prior_seed)
     try:
@@ -130,12 +155,32 @@ def one_case(ctx, prior_seed, addr, data, wrap=bytes, origin='inplace'):
                         {'prior_seed': prior_seed, 'origin': origin}, 'setup')
     model = bytearray(mem)
     labs = labels_for(addr, len(data))
+    twin = clone_of(g)
     apply_write(g, model, addr, data, {'prior_seed': prior_seed, 'wrap': wrap, 'origin': origin})
+    if cartgen.flat(twin) != mem:
+        raise Violation('write addr=0x%x len=%d into one cart changed the memory of another cart that was made from it '
+                        'beforehand with from_bytes(to_bytes())' % (addr, len(data)),
+                        {'prior_seed': prior_seed, 'addr': addr, 'data': bytes(data), 'origin': origin}, 'other-cart')
     if ctx is not None:
         labs = labs + ['origin_' + origin]
         ctx.stats.case((addr, bytes(data), prior_seed, origin), nontrivial(labs),
                        {'addr': hex(addr), 'len': len(data), 'data': show(data, 40), 'labels': labs},
                        labs)
+
+
+def replace_step(g, model, which, fresh):
+    lo, hi = [(a, b) for n, a, b in cartgen.REGIONS if n == which][0]
+    data = bytes(model[lo:hi]) if fresh is None else expand(b'fresh' + fresh, hi - lo)
+    setattr(g, which, section_from(which, data, g))
+    model[lo:hi] = data
+
+
+def copy_step(g, model, which, addr, keep, info):
+    src = getattr(g, which).to_bytes()
+    n = min(keep, len(src), END - addr)
+    if n < len(src):
+        src = src[:n]             # (a slice is a copy; only the whole buffer is the live object)
+    apply_write(g, model, addr, bytes(src), dict(info, wrap=lambda _d: src))
 
 
 def boundary_points():
@@ -203,6 +248,8 @@ def part_history(ctx):
             self.model = bytearray(mem)
             self.history = []
             self.labs = set()
+            self.twin = clone_of(self.g)
+            self.twin_mem = bytes(mem)
 
         @rule(w=random_write())
         def write(self, w):
@@ -212,14 +259,41 @@ def part_history(ctx):
             self.labs.update(labels_for(s, n))
             apply_write(self.g, self.model, s, data,
                         {'prior_seed': self.prior_seed, 'history': list(self.history), 'origin': self.origin})
+            self.check_twin()
+
+        @rule(which=st.sampled_from(SECTION_NAMES), fresh=st.one_of(st.none(), st.binary(min_size=3, max_size=3)))
+        def replace_section(self, which, fresh):
+            """Callers assign new section objects (the .p8 loader and build do): later writes go to the new one."""
+            self.history.append(['replace', which, fresh])
+            self.labs.add('section_replaced')
+            replace_step(self.g, self.model, which, fresh)
+
+        @rule(which=st.sampled_from(SECTION_NAMES), addr=st.integers(0, END - 1), keep=st.integers(1, 0x2000))
+        def copy_region(self, which, addr, keep):
+            """The data is the live buffer another region's to_bytes() returns (copying memory inside one cart)."""
+            self.history.append(['copy', which, addr, keep])
+            self.labs.update(labels_for(addr, min(keep, len(getattr(self.g, which).to_bytes()))))
+            self.labs.add('data_is_region_buffer')
+            copy_step(self.g, self.model, which, addr, keep,
+                      {'prior_seed': self.prior_seed, 'history': list(self.history), 'origin': self.origin})
+            self.check_twin()
+
+        def check_twin(self):
+            if cartgen.flat(self.twin) != self.twin_mem:
+                raise Violation('writes into one cart changed the memory of another cart made from it beforehand with '
+                                'from_bytes(to_bytes())',
+                                {'prior_seed': self.prior_seed, 'history': list(self.history), 'origin': self.origin},
+                                'other-cart')
 
         def teardown(self):
             if getattr(self, 'history', None):
                 labs = sorted(self.labs)
                 stats.case(repr((self.prior_seed, self.history)),
                            len(self.history) >= 2 and nontrivial(labs),
-                           {'history': [(hex(s), n) for s, n, _ in self.history][:8], 'labels': labs},
-                           ['history_len>=2'] if len(self.history) >= 2 else [])
+                           {'history': [h[:2] if isinstance(h[0], str) else (hex(h[0]), h[1]) for h in self.history][:8],
+                            'labels': labs},
+                           (['history_len>=2'] if len(self.history) >= 2 else []) +
+                           [x for x in labs if x in ('section_replaced', 'data_is_region_buffer')])
 
     ctx.machine('history', Writes, max_examples=60 if ctx.quick else 600, steps=12)
 
@@ -241,9 +315,19 @@ def replay(case):
         g, mem = game_from(mem, origin)
         model = bytearray(mem)
         hist = []
-        for s, n, dseed in case['history']:
-            hist.append([s, n, dseed])
-            apply_write(g, model, s, expand(dseed, n), {'prior_seed': prior_seed, 'history': list(hist), 'origin': origin})
+        twin = clone_of(g)
+        for h in case['history']:
+            hist.append(list(h))
+            info = {'prior_seed': prior_seed, 'history': list(hist), 'origin': origin}
+            if h[0] == 'replace':
+                replace_step(g, model, h[1], h[2])
+            elif h[0] == 'copy':
+                copy_step(g, model, h[1], h[2], h[3], info)
+            else:
+                s, n, dseed = h
+                apply_write(g, model, s, expand(dseed, n), info)
+            if cartgen.flat(twin) != mem:
+                raise Violation('writes into one cart changed the memory of another cart made from it', info, 'other-cart')
         return
     one_case(None, prior_seed, case['addr'], case['data'], origin=origin)
     one_case(None, prior_seed, case['addr'], case['data'], bytearray, origin=origin)
@@ -252,7 +336,7 @@ def replay(case):
 def vacuity(total, tier):
     msgs = []
     for lab in ('starts_on_boundary', 'ends_on_boundary', 'spans_regions', 'overflow', 'origin_from_p8', 'origin_from_png',
-                'origin_replaced'):
+                'origin_replaced', 'section_replaced', 'data_is_region_buffer'):
         if total.classes.get(lab, 0) < 20:
             msgs.append('class %s seen only %d times' % (lab, total.classes.get(lab, 0)))
     return msgs
